@@ -37,7 +37,9 @@ def case_strategy(draw, max_faces=60):
             "queries": [q0] + [list(q) for q in rest], "sweep_seed": draw(st.integers(0, 1000)),
             "declare_edges": draw(st.integers(0, 3)) == 0,
             # how the mesh object under test is produced: directly, or written to a file and loaded back
-            "via": draw(st.sampled_from([None, None, None, "obj", "mesh", "geogram_ascii"]))}
+            "via": draw(st.sampled_from([None, None, None, "obj", "mesh", "geogram_ascii"])),
+            # element ids handed to the queries as numpy integers (what loops over numpy arrays produce); face rows as list / tuple / numpy
+            "np_ids": draw(st.integers(0, 3)) == 0, "form": draw(st.sampled_from(["list", "list", "tuple", "numpy"]))}
 
 
 def pick_pair(ref, medges, a, b):
@@ -54,8 +56,12 @@ def do_query(m, ref, medges, eid, sort_on, q, ctx, where):
     C = m.connectivity
     nV, nF, nC = ref.nV, len(ref.F), ref.nC
     sig = "q:" + kind
+    np_ids = bool(ctx.case.get("np_ids"))
 
     def call(f, *args):
+        if np_ids:
+            import numpy as _np
+            args = tuple(_np.int64(x) if (isinstance(x, int) and not isinstance(x, bool)) else x for x in args)
         ok, val = ctx.call(sig, f, *args)
         return ok, val
 
@@ -284,7 +290,7 @@ def build(case):
         # declare (some of) the face sides explicitly, in reversed orientation: they must be the same edges
         ref = SurfRef(len(case["V"]), case["F"])
         E = [(b, a) for (a, b) in sorted(ref.uedges)][::2]
-    m = surface_from(case["V"], case["F"], E)
+    m = surface_from(case["V"], case["F"], E, case.get("form", "list"))
     via = case.get("via")
     if via:
         import os, tempfile, shutil
@@ -320,7 +326,7 @@ def fn(case, ctx):
         raise AssertionError("invalid generated case: " + err)
     for t in case.get("tags", []):
         ctx.label(t)
-    ctx.label("sort=" + str(case["sort"]), "via=" + str(case.get("via")))
+    ctx.label("sort=" + str(case["sort"]), "via=" + str(case.get("via")), "ids=" + ("numpy" if case.get("np_ids") else "int"), "form=" + case.get("form", "list"))
     ctx.label("first=" + case["queries"][0][0])
     has_inner = any(not ref.edge_on_border(*e) for e in ref.uedges)
     kinds = set(q[0] for q in case["queries"])
